@@ -74,10 +74,21 @@ def theorem_names(module):
         lines = open(path).read().split('\n')
     except OSError:
         return out
+    stack = []
     for i, l in enumerate(lines):
+        mn = re.match(r'^namespace\s+(\S+)', l)
+        if mn:
+            stack.append(mn.group(1))
+            continue
+        me = re.match(r'^end\s+(\S+)', l)
+        if me and stack and stack[-1] == me.group(1):
+            stack.pop()
+            continue
         m = re.match(r'^theorem\s+([^\s:({\[]+)', l)
         if m:
-            out.append([ns + '.' + m.group(1), i + 1, len(lines)])
+            full = '.'.join(stack + [m.group(1)])
+            if full.startswith(ns + '.'):
+                out.append([full, i + 1, len(lines)])
     for k in range(len(out) - 1):
         out[k][2] = out[k + 1][1] - 1
     return out
@@ -125,7 +136,8 @@ def lean_obligations(rep):
         f.write('import CoreBGP.AuditCmd\n')
         for m in mods:
             f.write(f'import {m}\n')
-        f.write(f'#audit_props CoreBGP.Props.{rep.pid}\n')
+        for m in mods:
+            f.write(f'#audit_props {m}\n')
     rc, out = sh(['lake', 'env', 'lean', audit], cwd=LEAN, timeout=1800)
     rows = {}
     for l in out.split('\n'):
